@@ -8,7 +8,7 @@ from simkit.kernel import HarnessError
 
 ID = "C05"
 LEVEL = "exploration"
-RUNS = {"quick": 6000, "thorough": 200000}
+RUNS = {"quick": 40000, "thorough": 1500000}
 RULE = ("seeded biased random walks (hot keys, cyclic sweeps over size+1 keys, bursts, uniform) of 1..400 lookups "
         "over table sizes 1..8 with size+2 keys, real LookupEncoder coupled event by event to the real LookupDecoder "
         "under the name / prefix (with empty prefix) / datatype index rules, and real TermEncoder.encode_iri / "
